@@ -27,6 +27,21 @@ def base_name(n):
     return re.sub(r'@p\d+$', '', n)
 
 
+def in_lock(bn, locked):
+    """is the (refuted) obligation one whose case was discharged on the baseline?  Either under its own
+    name, or - for the exception clauses, whose names depend on which way a path goes - through the other
+    clause of the same contract case: `must-raise:E` (the path now returns) is the baseline's `raises:E`,
+    `raises:E` (the path now raises where it must not) is the baseline's postcondition of that case."""
+    if bn in locked:
+        return True
+    for mark, other in ((':must-raise:', ':raises:'), (':raises:', ':post:'), (':raises:', ':must-raise:')):
+        if mark in bn:
+            prefix = bn.split(mark)[0]
+            if any(n.startswith(prefix + other) for n in locked):
+                return True
+    return False
+
+
 def concrete_run(contract, tier, limit=None, max_failures=12):
     """CPython cross-check: the executable contract on the real function for an enumeration of
     small inputs.  -> (n_run, failures) ; failures = [(label, observed, expected), ...]"""
@@ -125,7 +140,7 @@ def run_contracts(ctx, contracts, contracts_module):
         locked = set(lock.get(fn, {}).get('proved', []))
         for name, model in summ['refuted']:
             bn = base_name(name)
-            if bn in locked:
+            if in_lock(bn, locked):
                 ctx.obligation(name, fn, 'refuted-no-input', 'z3', 0.0, detail=str(model)[:300])
                 ctx.violation(bn, dict(function=fn, obligation=bn), 'solver refutes an obligation '
                               'that was discharged on the baseline tree', 'unsat',
@@ -206,7 +221,7 @@ def run_vcs(ctx, fn, vcs, shash=None, key=None):
         bn = base_name(v.name)
         if r == 'unsat':
             ctx.obligation(v.name, fn, 'proved', 'z3', dt, shash)
-        elif r == 'sat' and bn in locked:
+        elif r == 'sat' and in_lock(bn, locked):
             ctx.obligation(v.name, fn, 'refuted-no-input', 'z3', dt, shash, detail=str(model)[:300])
             ctx.violation(bn, dict(function=fn, obligation=bn), 'solver refutes an obligation that was '
                           'discharged on the baseline tree', 'unsat', function=fn, no_input=True,
